@@ -694,6 +694,12 @@ def ucan_part(c, pid, q):
              "keys, sealed tokens, all four container formats and both reader variants; the invocation is taken from the container "
              "(GetInvocation) and validated with the container as loader; non-trivial = a wire action or a denied execution" % (1 if q else 2))
     os.remove(cp)
+    tr = c.drive("story", 600 if q else 6000)
+    c.validate("story", "TraceUcan", "TraceUcan.cfg", tr, cfg_constants=dict(Prop=pid),
+               rule="stories recorded from the real code beyond the exhaustive bounds (stores of <=5 delegations, proof lists of <=4, "
+                    "up to 3 acts of the adversary in a row, four container formats, both reader variants): every event bound to the "
+                    "action of Ucan.tla with its logged arguments, the real outcome and the fields of the invocation actually executed "
+                    "judged at the Execute step (TraceUcan!AcceptsExec)")
 
 
 def check_chain(pid):
